@@ -123,7 +123,8 @@ def simulate_event(sess, step, store):  # noqa: C901
     if target == "simulate":
         if step.get("arbitrary"):
             shapes = [np.asarray(v).shape for v in sess.get("solve", jit)(p)]
-            Vused = [jnp.asarray(np.array(a, dtype=np.float32).reshape(s)) for a, s in zip(step["arbitrary"], shapes)]
+            Vused = [jnp.asarray(np.array(a[:int(np.prod(s))], dtype=np.float32).reshape(s))
+                     for a, s in zip(step["arbitrary"], shapes, strict=True)]
         else:
             Vused = sess.get("solve", step.get("solve_jit", jit))(p)
         kwargs["vf_arr_list"] = Vused
